@@ -77,11 +77,11 @@ GENERIC = ["", "-", "--", "null", "-1", "x"]
 def menu_for(skel, full):
     m = list(GENERIC) + (["---", "--=", "-=", "--zz", "-z"] if full else [])
     for o in skel.all_opts:
-        m += ["--" + o.long, "--" + o.long + "=x"]
+        m += ["--" + o.long, "--" + o.long + "=x", "--" + o.long + "="]
         if o.short:
             m += ["-" + o.short]
         if full:
-            m += ["--" + o.long + "=", "--" + o.long + "=1"]
+            m += ["--" + o.long + "=1"]
             if o.short:
                 m += ["-" + o.short + "x", "-" + o.short + "1"]
     shorts = [o.short for o in skel.all_opts if o.short]
@@ -153,9 +153,10 @@ def fault(kind: int, v: str, w: str, long_spelling: bool) -> bool:
     if kind == 2:      # unknown option
         return _raises(S1, valid + (["--zz"] if long_spelling else ["-z"]), NoSuchOptionException)
     if kind == 3:      # value attached to a flag
-        return _raises(S1, [w, "--flag=" + v], CannotParseArgsException)
+        return _raises(S1, [w, "--flag=" + v], CannotParseArgsException) and _raises(S1, [w, "--flag="], CannotParseArgsException)
     if kind == 4:      # required value stripped (option last)
-        return _raises(S1, [w, "-f", opt[0]], CannotParseArgsException)
+        return _raises(S1, [w, "-f", opt[0]], CannotParseArgsException) and _raises(S1, [w, "--opt=", v], CannotParseArgsException)
+
     if kind == 5:      # value of the wrong type
         return _raises(S2, ["--num", "x" + v] if long_spelling else ["-n", "x" + v], ValueError)
     # required value stripped, next token is another option
